@@ -55,7 +55,11 @@ pub fn unk_def(rng: &mut Rng, n: usize) -> String {
 pub fn gen_world(rng: &mut Rng, tag: &str, o: &WorldOpts) -> Result<World, String> {
     let wd = Workdir::new(tag);
     let n = rng.range(2, 6);
-    let matrix = Matrix::random(rng, n, n, o.extreme);
+    // every third world has a matrix that is not square; all connection ids stay below BOTH dimensions (an id between
+    // the two is finding D17 and belongs to C20/C06)
+    let (xl, xr) = match tag.bytes().fold(0u32, |a, b| a.wrapping_mul(31).wrapping_add(b as u32)) % 3 { 0 => (1 + (n % 3), 0), _ => (0, 0) };
+    let (xl, xr) = if n % 2 == 0 { (xl, xr) } else { (xr, xl) };
+    let matrix = Matrix::random(rng, n + xl, n + xr, o.extreme);
     let lsize = rng.range(8, o.lex_size.max(9));
     let mut lex = gen_lexicon(rng, n, lsize, o.extreme, o.splits);
     // every world knows a few numerals (part of speech 名詞,数詞), as every real dictionary does: the texts contain
@@ -81,7 +85,8 @@ pub fn gen_world(rng: &mut Rng, tag: &str, o: &WorldOpts) -> Result<World, Strin
         for k in &kinds {
             input.push(match *k {
                 "default" => r#"{"class":"com.worksap.nlp.sudachi.DefaultInputTextPlugin","rewriteDef":"rewrite.def"}"#.to_string(),
-                "psm" => r#"{"class":"com.worksap.nlp.sudachi.ProlongedSoundMarkPlugin","prolongedSoundMarks":["ー","〜","～"],"replacementSymbol":"ー"}"#.to_string(),
+                // one world in four DELETES runs of marks (replacementSymbol ""): a text made of marks only becomes empty
+                "psm" => format!(r#"{{"class":"com.worksap.nlp.sudachi.ProlongedSoundMarkPlugin","prolongedSoundMarks":["ー","〜","～"],"replacementSymbol":"{}"}}"#, if n % 4 == 3 { "" } else { "ー" }),
                 _ => format!(r#"{{"class":"com.worksap.nlp.sudachi.IgnoreYomiganaPlugin","leftBrackets":["(","（","《"],"rightBrackets":[")","）","》"],"maxYomiganaLength":{}}}"#, rng.range(1, 4)),
             });
         }
